@@ -6,7 +6,7 @@ Tree descriptors (JSON-able):
   ['P', tag, n_workers, batch_size, extra]     ProcessServlet of TagWorker
   ['Seq', [child, ...]]
   ['Ens', fail_fast, [child, ...]]
-  ['Sw', [child, ...]]                         member = token seq % n
+  ['Sw', [child, ...]]                         member = token seq % n; the user's switch() fails for requests whose plan says ('SW', 'unroutable' | 'badindex')
 """
 from __future__ import annotations
 
@@ -44,10 +44,27 @@ def build(desc, log_dir=None, fuzz_child=None):
 
         class Sw(SwitchServlet):
             def switch(self, x):
+                # user code: may fail for one input (plan entry ('SW', 'unroutable' | 'badindex', None))
+                from .srvtargets import plan_for
+                from .targets import Reject
+
+                acts = [a for a, _ in plan_for(x, 'SW')]
+                if 'unroutable' in acts:
+                    raise Reject('SW', tid(x))
+                if 'badindex' in acts:
+                    return n + 7
                 return tid(x)[1] % n
 
         return Sw(*[build(c, log_dir, fuzz_child) for c in desc[1]])
     raise ValueError(k)
+
+
+def has_switch(desc):
+    if desc[0] == 'Sw':
+        return True
+    if desc[0] in ('T', 'P'):
+        return False
+    return any(has_switch(c) for c in (desc[1] if desc[0] == 'Seq' else desc[2]))
 
 
 def leaves(desc):
@@ -148,6 +165,13 @@ def interpret(desc, v, tok, forced=frozenset()):
             return ('ENSERR-ALL', outs)
         return list(outs)
     if k == 'Sw':
+        from .srvtargets import plan_for
+
+        acts = [a for a, _ in plan_for(tok, 'SW')]
+        if 'unroutable' in acts:
+            return ('EXC', 'Reject', ('SW', (tok[1], tok[2])))
+        if 'badindex' in acts:
+            return ('EXC', 'IndexError', ('list index out of range',))
         return interpret(desc[1][tok[2] % len(desc[1])], v, tok, forced)
     raise ValueError(k)
 
